@@ -336,6 +336,23 @@ def the(x):
     return x
 
 
+def as_seq(x):
+    """a Python list/tuple as an indexable sequence in both modes"""
+    if HAVE_Z3 and isinstance(x, (list, tuple)):
+        from .interp import PathEnd
+        return ops.to_sseq(list(x)) if len(x) else SSeq(z3.K(I, z3.IntVal(0)), 0, 0, 'list', 'int')
+    return x
+
+
+def put(seq, i, v):
+    """the sequence with element i replaced by v"""
+    if _sym(seq, i, v):
+        return ops.store_seq(seq, i, v)
+    l = list(seq)
+    l[i] = v
+    return ''.join(l) if isinstance(seq, str) else l
+
+
 def mkseq(f, n, ek='real'):
     """the sequence [f(0), ..., f(n-1)]"""
     if not _sym(n):
@@ -352,7 +369,7 @@ def mkseq(f, n, ek='real'):
     return SSeq(LAM(j, body), 0, ops.z3int(n), 'list', ek)
 
 
-NAMES = dict(define=define, memo=memo, rmax=rmax, rep=rep, cat=cat, mkseq=mkseq, mkset=mkset, forall_char=forall_char, isum=isum, rsum=rsum, cnt=cnt, ite=ite, implies=implies, iff=iff, And=And, Or=Or, Not=Not,
+NAMES = dict(put=put, as_seq=as_seq, define=define, memo=memo, rmax=rmax, rep=rep, cat=cat, mkseq=mkseq, mkset=mkset, forall_char=forall_char, isum=isum, rsum=rsum, cnt=cnt, ite=ite, implies=implies, iff=iff, And=And, Or=Or, Not=Not,
              forall=forall, exists=exists, length=length, isin=isin, sqrt=sqrt, pow10=pow10, logb=logb,
              absv=absv, toreal=toreal, fdiv=fdiv, maxv=maxv, minv=minv, seq_eq=seq_eq, is_none=is_none,
              the=the, Fraction=Fraction)
